@@ -1,4 +1,5 @@
 import PhononModel.Lemmas.NAC
+import PhononModel.Lemmas.GList
 import Mathlib.Tactic.FinCases
 import Mathlib.Tactic.NormNum
 /-!
@@ -174,9 +175,86 @@ theorem gl_commensurate_partial {N : Nat} (L : Lat np ns N) (hwf : L.wf = true) 
                                               (D q i a j b).im - (dd q i a j b).im / ms i j⟩) ms (phI L Z ψ mult))
         ms (phF L Z ψ mult q')) (dd q') ms = D q' := by
   unfold dynmat
-  rw [roundtrip_dm_raw (L.wf_sound hwf) hN Z ψ hψ hψn mult hm ms hms _ hTR q', hermitize_of_hermitian _ (hH q')]
+  rw [roundtrip_dm_raw (L.wf_sound hwf) hN Z ψ hψ hψn mult hm ms hms _ q' (fun q hd => hTR q q' hd), hermitize_of_hermitian _ (hH q')]
   funext i a j b
   ext <;> simp [addDD]
+
+/-! ## Hermiticity, time reversal, and the list of reciprocal vectors -/
+
+theorem gListWf_sound {nG : Nat} {G : Fin nG → V3 K} {nu : Fin nG → Fin nG} (h : gListWf G nu = true) :
+    ∃ ν : Fin nG ≃ Fin nG, (∀ g, ν g = nu g) ∧ GSym G ν := by
+  have hinv : ∀ g, nu (nu g) = g ∧ ∀ i, G (nu g) i = -G g i := by
+    intro g
+    simp only [gListWf, List.all_eq_true, List.mem_finRange, forall_const, Bool.and_eq_true, beq_iff_eq] at h
+    exact h g
+  exact ⟨⟨nu, nu, fun g => (hinv g).1, fun g => (hinv g).1⟩, fun _ => rfl, ⟨fun g i => (hinv g).2 i⟩⟩
+
+/-- (8a) the Gonze–Lee matrix is Hermitian (phases of `(j,i)` conjugate to those of `(i,j)`,
+Hermitian `dd_q0` blocks, symmetric `sqrt(m_i m_j)`), for every list of reciprocal vectors. -/
+theorem gl_hermitian {nG : Nat} (T : FTables np ns nr) (fcSR : Fin nr → Fin ns → Fin 3 → Fin 3 → K)
+    (ms : Fin np → Fin np → K) (ph : Phases np ns K) (G : Fin nG → V3 K) (qc : V3 K) (dir : Option (V3 K))
+    (eps : T3 K) (born : Fin np → T3 K) (tolSq : K) (expv : Fin nG → K) (phG : Fin nG → Fin np → Fin np → Cx K)
+    (ddq0 : Fin np → Fin 3 → Fin 3 → Cx K) (factor : K)
+    (hph : ∀ g i j, phG g j i = (phG g i j).conj) (hq0 : ∀ i a b, ddq0 i b a = (ddq0 i a b).conj)
+    (hsym : ∀ i j, ms j i = ms i j) :
+    IsHermitian (glDynmat T fcSR ms ph G qc dir eps born tolSq expv phG ddq0 factor) :=
+  glDynmat_isHermitian T fcSR ms ph G qc dir eps born tolSq expv phG ddq0 factor hph hq0 hsym
+
+/-- (8b) **`D_GL(−q) = conj D_GL(q)`** when the list of reciprocal vectors passes the certificate
+`gListWf` (symmetric under `G ↦ −G`; evaluated on the implementation's `G_list`) and `dd_q0` is
+real.  `−q` is the Cartesian vector `−q_cart` itself; for the representative `−q + G₀` of another
+zone the truncated sum runs over a shifted set and the identity holds only up to the neglected tail. -/
+theorem gl_time_reversal {nG : Nat} (T : FTables np ns nr) (fcSR : Fin nr → Fin ns → Fin 3 → Fin 3 → K)
+    (ms : Fin np → Fin np → K) (ph : Phases np ns K) (G : Fin nG → V3 K) (nu : Fin nG → Fin nG)
+    (hG : gListWf G nu = true) (qc : V3 K) (dir : Option (V3 K)) (eps : T3 K) (born : Fin np → T3 K) (tolSq : K)
+    (expv expv' : Fin nG → K) (phG : Fin nG → Fin np → Fin np → Cx K) (ddq0 : Fin np → Fin 3 → Fin 3 → Cx K)
+    (factor : K) (he : ∀ g, expv' (nu g) = expv g) (hp : ∀ g i j, phG (nu g) i j = (phG g i j).conj)
+    (hreal : ∀ i a b, (ddq0 i a b).im = 0) :
+    glDynmat T fcSR ms (conjPh ph) G (fun i => -qc i) dir eps born tolSq expv' phG ddq0 factor =
+      conjDM (glDynmat T fcSR ms ph G qc dir eps born tolSq expv phG ddq0 factor) := by
+  obtain ⟨ν, hν1, hν⟩ := gListWf_sound hG
+  exact glDynmat_time_reversal T fcSR ms ph G ν hν qc dir eps born tolSq expv expv' phG ddq0 factor
+    (fun g => by rw [hν1]; exact he g) (fun g i j => by rw [hν1]; exact hp g i j) hreal
+
+/-- (8c) `dd_q0` as the model computes it: every 3×3 block is Hermitian, and real when the list is
+`G ↦ −G` symmetric — hence real symmetric. -/
+theorem dd_q0_hermitian_real {nG : Nat} (G : Fin nG → V3 K) (nu : Fin nG → Fin nG) (hG : gListWf G nu = true)
+    (eps : T3 K) (born : Fin np → T3 K) (tolSq : K) (expv : Fin nG → K) (phG : Fin nG → Fin np → Fin np → Cx K)
+    (he : ∀ g, expv (nu g) = expv g) (hp : ∀ g i j, phG (nu g) i j = (phG g i j).conj) (i : Fin np) (a b : Fin 3) :
+    ddQ0 G eps born tolSq expv phG i b a = (ddQ0 G eps born tolSq expv phG i a b).conj ∧
+    (ddQ0 G eps born tolSq expv phG i a b).im = 0 := by
+  obtain ⟨ν, hν1, hν⟩ := gListWf_sound hG
+  exact ⟨ddQ0Of_hermitian _ i a b,
+    ddQ0_real G ν hν eps born tolSq expv phG (fun g => by rw [hν1]; exact he g) (fun g i j => by rw [hν1]; exact hp g i j) i a b⟩
+
+/-- (8d) the modelled `_get_G_list` is symmetric under `G ↦ −G` for every index radius … -/
+theorem g_list_symmetric (rec : T3 K) (cutoffSq : K) (r : Nat) (n : I3) (h : n ∈ gList rec cutoffSq r) :
+    n.neg ∈ gList rec cutoffSq r :=
+  gList_neg_closed rec cutoffSq r n h
+
+/-- … and it is the complete set `{G : |G|² < G_cutoff²}` whenever the index radius `r` satisfies
+`|a_i|² G_cutoff² ≤ (r+1)²` for the three real lattice vectors `a_i` (rows of `cell = rec⁻¹`). -/
+theorem g_list_complete (rec cell : T3 K) (cutoffSq : K) (r : Nat)
+    (hinv : ∀ i j, cell i 0 * rec 0 j + cell i 1 * rec 1 j + cell i 2 * rec 2 j = if i = j then 1 else 0)
+    (hr : ∀ i, (cell i 0 * cell i 0 + cell i 1 * cell i 1 + cell i 2 * cell i 2) * cutoffSq ≤ ((r : K) + 1) ^ 2)
+    (n : I3) : n ∈ gList rec cutoffSq r ↔ normSq (gVec rec n) < cutoffSq :=
+  gList_complete rec cutoffSq r (gList_radius_sufficient rec cell cutoffSq r hinv hr) n
+
+/-- a skewed basis: real lattice `a₁ = (1,2,0), a₂ = (0,1,0), a₃ = (0,0,1)` -/
+def recSkew : T3 ℚ := fun i j => if i = 0 ∧ j = 0 then 1 else if i = 0 ∧ j = 1 then -2 else if i = j then 1 else 0
+
+/-- (8e) **the index radius chosen by `_get_minimum_g_rad` is not sufficient for skewed bases**
+(finding): for `recSkew` and `G_cutoff² = 5` it returns 3, but `G = rec·(4,2,0) = (0,2,0)` has
+`|G|² = 4 < 5` and index 4 — the vector is missing from the list. -/
+theorem minGRad_insufficient :
+    minGRad recSkew 5 10 = 3 ∧ normSq (gVec recSkew (4, 2, 0)) < 5 ∧
+      (4, 2, 0) ∉ gList recSkew 5 (minGRad recSkew 5 10) := by
+  have h1 : minGRad recSkew 5 10 = 3 := by decide +kernel
+  refine ⟨h1, by decide +kernel, ?_⟩
+  rw [h1, mem_gList]
+  intro h
+  have := mem_gIndices.mp h.1
+  omega
 
 /-! ## symmetrisation of Born charges and dielectric tensor -/
 
@@ -321,6 +399,12 @@ end PhononModel.C08
 #print axioms PhononModel.C08.wang_commensurate_noop
 #print axioms PhononModel.C08.gl_gamma_limit
 #print axioms PhononModel.C08.gl_commensurate_partial
+#print axioms PhononModel.C08.gl_hermitian
+#print axioms PhononModel.C08.gl_time_reversal
+#print axioms PhononModel.C08.dd_q0_hermitian_real
+#print axioms PhononModel.C08.g_list_symmetric
+#print axioms PhononModel.C08.g_list_complete
+#print axioms PhononModel.C08.minGRad_insufficient
 #print axioms PhononModel.C08.born_symmetrize_projection
 #print axioms PhononModel.C08.epsilon_symmetrize_projection
 #print axioms PhononModel.C08.glDynmatF_spec
